@@ -4,6 +4,7 @@ document, on reader states that are similar (`RSim`: everything equal but the he
 -/
 import CassisModel.Proofs.RoundTripJsonEmbSim
 import CassisModel.Proofs.TypeSystem
+import CassisModel.Proofs.GetTypeExact
 
 namespace Cassis.Json
 open Cassis.TS
@@ -207,7 +208,7 @@ def parseFsWith (K : Consts) (t : TypeRec) (isAnn : Bool) (tsIdx : Nat) (s : RSt
 
 theorem parseFs_eq (K : Consts) (ts : TypeSystem) (tsIdx : Nat) (s : RState) (j : JFs) :
     parseFs K ts tsIdx s j =
-      match getType ts (fsTypeName j) with
+      match getTypeExact ts (fsTypeName j) with
       | .error e => .error e
       | .ok t => parseFsWith K t (isInstanceOf ts t.name ANNOTATION) tsIdx s j := by
   unfold parseFs parseFsWith fsTypeName
@@ -319,18 +320,60 @@ theorem containsType_of_mem {ts : TypeSystem} {t : TypeRec} (h : t ∈ ts.types)
   obtain ⟨t0, ht0⟩ := Option.isSome_iff_exists.mp this
   exact ⟨t0, by unfold getType; rw [ht0]⟩
 
+/-- type systems that agree on a name under `get_type` agree on it under the exact lookup of the reader: a type found by
+    short name only has another name than the one asked for, in both -/
+theorem typeAgree_exact {ts ts' : TypeSystem} {n : String} (ha : TypeAgree ts ts' n) :
+    match getTypeExact ts n, getTypeExact ts' n with
+    | .ok t, .ok t' =>
+      t'.name = t.name ∧ (∀ x, x ∈ ctorFields t' ↔ x ∈ ctorFields t) ∧
+      isInstanceOf ts' t.name ANNOTATION = isInstanceOf ts t.name ANNOTATION
+    | .error e, .error e' => e' = e
+    | _, _ => False := by
+  unfold TypeAgree at ha
+  have key : ∀ (a b : TypeSystem) (t t' : TypeRec), find? a n = some t → find? b n = none → getType b n = .ok t' →
+      t'.name = t.name → False := by
+    intro a b t t' h1 h2 h3 h4
+    have hm := getType_mem h3
+    have := List.find?_eq_none.mp h2 t' hm
+    rw [h4, find?_name h1] at this
+    simp at this
+  cases hf : find? ts n with
+  | none =>
+    cases hf' : find? ts' n with
+    | none => rw [getTypeExact_of_find_none hf, getTypeExact_of_find_none hf']
+    | some t' =>
+      rw [getType_ok_of_find hf'] at ha
+      cases hg : getType ts n with
+      | error e => rw [hg] at ha; exact ha.elim
+      | ok t =>
+        rw [hg] at ha
+        exact (key ts' ts t' t hf' hf hg ha.1.symm).elim
+  | some t =>
+    cases hf' : find? ts' n with
+    | none =>
+      rw [getType_ok_of_find hf] at ha
+      cases hg : getType ts' n with
+      | error e => rw [hg] at ha; exact ha.elim
+      | ok t' =>
+        rw [hg] at ha
+        exact (key ts ts' t t' hf hf' hg ha.1).elim
+    | some t' =>
+      rw [getType_ok_of_find hf, getType_ok_of_find hf'] at ha
+      rw [getTypeExact_of_find hf, getTypeExact_of_find hf']
+      exact ha
+
 theorem parseFs_sim (K : Consts) {ts ts' : TypeSystem} (tsIdx : Nat) {s s' : RState} (hs : RSim ts ts' s s') (j : JFs)
     (ha : TypeAgree ts ts' (fsTypeName j)) :
     ESim (RSim ts ts') (parseFs K ts tsIdx s j) (parseFs K ts' tsIdx s' j) := by
   rw [parseFs_eq, parseFs_eq]
-  unfold TypeAgree at ha
-  cases h1 : getType ts (fsTypeName j) with
+  have ha := typeAgree_exact ha
+  cases h1 : getTypeExact ts (fsTypeName j) with
   | error e =>
-    cases h2 : getType ts' (fsTypeName j) with
+    cases h2 : getTypeExact ts' (fsTypeName j) with
     | error e' => rw [h1, h2] at ha; dsimp only at ha; subst ha; exact ESim.err _
     | ok t' => rw [h1, h2] at ha; exact ha.elim
   | ok t =>
-    cases h2 : getType ts' (fsTypeName j) with
+    cases h2 : getTypeExact ts' (fsTypeName j) with
     | error e' => rw [h1, h2] at ha; exact ha.elim
     | ok t' =>
       rw [h1, h2] at ha
@@ -338,7 +381,7 @@ theorem parseFs_sim (K : Consts) {ts ts' : TypeSystem} (tsIdx : Nat) {s s' : RSt
       dsimp only
       rw [hn, hi]
       have hg : Good ts ts' t.name :=
-        ⟨containsType_of_mem (getType_mem h1), by rw [← hn]; exact containsType_of_mem (getType_mem h2)⟩
+        ⟨containsType_of_mem (getTypeExact_mem h1), by rw [← hn]; exact containsType_of_mem (getTypeExact_mem h2)⟩
       exact parseFsWith_sim K hn hf hg _ tsIdx hs j
 
 end Cassis.Json
